@@ -272,6 +272,14 @@ func xferBody(sc Scn, src fsmodel.Tree, srcDir, destDir string, res *XferRes) Bo
 			}
 			srcFS = dfs
 		}
+		if ex, ok := strings.CutPrefix(sc.Variant, "exclude:"); ok {
+			ffs, err := fsutil.NewFilterFS(srcFS, &fsutil.FilterOpt{ExcludePatterns: strings.Split(ex, ",")})
+			if err != nil {
+				x.Panic = "NewFilterFS: " + err.Error()
+				return
+			}
+			srcFS = ffs
+		}
 		go func() {
 			vrt.Gate("start S", nil)
 			err := fsutil.Send(sctx, sEnd, srcFS, progress)
